@@ -21,7 +21,10 @@ Ctx == {"jit", "scan", "while", "fori_static", "fori_dynamic", "cond", "switch",
 Compiling == {"jit", "scan", "while", "fori_static", "fori_dynamic", "cond", "switch"}
 (* equations the Seed interpreter rewrites (or that leave no equation of their own in the staged Jaxpr) *)
 SeedInterprets == {"scan", "fori_static", "cond", "switch", "grad", "modular_vmap", "seed"}
+Uninterp == {"remat", "custom_jvp"}
 Stacks == UNION {[1..d -> Ctx] : d \in 0..Depth}
+          \cup {<<"seed", x, y>> : x \in Uninterp, y \in Uninterp}          \* nested uninterpreted equations under seed (always included)
+          \cup {<<"seed", x, y, z>> : x \in Uninterp, y \in {"grad", "modular_vmap"}, z \in Uninterp}
 
 (* ---------------- Contract ---------------- *)
 (* index of the innermost seed, 0 if none *)
